@@ -275,3 +275,37 @@ Proof.
   intros window p m mld psi Hw uab s1 s2 d Hd1 Hd2 H1 H2 Hp1 Hp2 Hp Hpsi.
   exact (c_wps_eu_kernel_bounded window p m mld psi Hw s1 s2 d Hd1 Hd2 H1 H2 Hp1 Hp2 Hp Hpsi).
 Qed.
+
+(* ... and FROM THE SETTINGS STRUCT: `DTWWps p = dtw_wps_parts(l1, l2, settings)` is regenerated whole as well
+   (Gen_cparts.v: the decoding 0 = off, the squares for the squared-Euclidean inner distance, the geometry of the
+   compact layout); CWpsFinal.c_warping_paths_sq is the kernel called with the members of that struct and with
+   dtw_wps_shift(&p, .).  For window, max_dist, max_step, penalty as they stand in the struct: the value returned is
+   the specification value cut at max_dist (0 = no bound), the array is the specification matrix up to that bound. *)
+From DV Require Import CParts.
+
+Theorem C03_c_warping_paths_from_the_settings_struct :
+  forall (window p m mld md : Z) (psi : (nat * nat) * (nat * nat)), (0 <= window)%Z -> (0 <= p)%Z ->
+  let usq := c_to_u (cs_of window p m mld psi SqEuclid) in
+  forall (s1 s2 : list point) (d : nat),
+  (forall q, In q s1 -> length q = d) -> (forall q, In q s2 -> length q = d) ->
+  (1 <= length s1)%nat -> (1 <= length s2)%nat ->
+  (psi_1b usq <= length s1)%nat -> (psi_2b usq <= length s2)%nat ->
+  (psi_1b usq < length s1 \/ psi_2e usq < length s2)%nat ->
+  forall ce ced1 ced2 (wps0 : list cost) (keep : bool),
+  let l1 := Z.of_nat (length s1) in let l2 := Z.of_nat (length s2) in
+  let W := CWps.cw_width l1 l2 window in
+  Z.of_nat (length wps0) = ((l1 + 1) * W)%Z ->
+  exists wps',
+    c_warping_paths_sq ce ced1 ced2 wps0 (concat s1) l1 (concat s2) l2 true keep false (Z.of_nat d) window md m p false
+      (Z.of_nat (psi_1b usq)) (Z.of_nat (psi_1e usq)) (Z.of_nat (psi_2b usq)) (Z.of_nat (psi_2e usq)) false
+    = (RPlain (sq_repr keep (bounded (c_wps_bound SqEuclid md) (dtw_value usq s1 s2))), wps', true) /\
+    Z.of_nat (length wps') = ((l1 + 1) * W)%Z /\
+    forall (i : nat) (s : Z), (Z.of_nat i <= l1)%Z -> (0 <= s < W)%Z ->
+      (s + CWps.cw_shift l1 l2 window (Z.of_nat i - 1) <= l2)%Z ->
+      ((s + CWps.cw_shift l1 l2 window (Z.of_nat i - 1))%Z = 0%Z -> (Z.of_nat i <= CWps.cw_ri2 l1 l2 window)%Z) ->
+      exists v, aget wps' (Z.of_nat i * W + s) = sq_repr keep v /\
+                PyDistPrune.Q (c_wps_bound SqEuclid md) v (mget (wps_matrix usq s1 s2) i (Z.to_nat (s + CWps.cw_shift l1 l2 window (Z.of_nat i - 1)))).
+Proof.
+  intros window p m mld md psi Hw Hp usq s1 s2 d Hd1 Hd2 H1 H2 Hp1 Hp2 Hpsi.
+  exact (c_warping_paths_sq_spec window p m mld md psi Hw Hp s1 s2 d Hd1 Hd2 H1 H2 Hp1 Hp2 Hpsi).
+Qed.
